@@ -1064,11 +1064,18 @@ class Node:
         origin_host, recv_time = self._origin_waiting_answer[message_id]
         process_time = time.time() - recv_time
 
-        if origin_host not in self._sent_answers:
-            self._sent_answers[origin_host] = deque(
-                maxlen=self.retransmit_queue_size)
-        
-        self._sent_answers[origin_host].append(message.header.end_to_end_identifier)
+        # CER, DWR and DPR travel one hop only and are never retransmitted
+        # after a failover; their originators may not even be known peers
+        if message.header.command_code not in (
+                constants.CMD_CAPABILITIES_EXCHANGE,
+                constants.CMD_DEVICE_WATCHDOG,
+                constants.CMD_DISCONNECT_PEER):
+            if origin_host not in self._sent_answers:
+                self._sent_answers[origin_host] = deque(
+                    maxlen=self.retransmit_queue_size)
+
+            self._sent_answers[origin_host].append(
+                message.header.end_to_end_identifier)
 
         del self._origin_waiting_answer[message_id]
 
